@@ -12,9 +12,18 @@
 #include "src/md/blake2.h"
 
 typedef unsigned long long vc2_u64;
-extern unsigned g2_n;                    /* compression calls so far */
+/* one ghost object (one assigns target: the dfcc inclusion loop is unwound once per target, DESIGN P33) */
+struct vc2_ghost { unsigned n; uint8_t val; uint32_t t0, t1, f0, f1; int set; vc2_u64 src; };
+extern struct vc2_ghost g2s;
+#define g2_n   g2s.n                     /* compression calls so far */
 extern size_t g2_ob, g2_oi;              /* observed call number, observed byte offset inside the block (ghost indices) */
-extern uint8_t g2_val; extern uint32_t g2_t0, g2_t1, g2_f0, g2_f1; extern int g2_set; extern vc2_u64 g2_src;   /* what the observed call saw */
+#define g2_val g2s.val                   /* what the observed call saw: block byte, counter words, flag words, block address */
+#define g2_t0  g2s.t0
+#define g2_t1  g2s.t1
+#define g2_f0  g2s.f0
+#define g2_f1  g2s.f1
+#define g2_set g2s.set
+#define g2_src g2s.src
 #define VC2_XID(p)  ((((vc2_u64)__CPROVER_POINTER_OBJECT(p)) << 40) + (vc2_u64)__CPROVER_POINTER_OFFSET(p))
 #define VC2_OI      (g2_oi < 64 ? g2_oi : 0)
 #ifndef VC_B2_MAXIN
@@ -34,7 +43,7 @@ extern uint8_t g2_val; extern uint32_t g2_t0, g2_t1, g2_f0, g2_f1; extern int g2
 #ifdef VC_B2S_CORE
 static void blake2s_compress(blake2s_state *S, const uint8_t in[BLAKE2S_BLOCKBYTES])
 __CPROVER_requires(__CPROVER_is_fresh(S, sizeof(blake2s_state)) && __CPROVER_r_ok(in, 64) && g2_n < 1000000)
-VC_ASSIGNS(__CPROVER_object_upto(S->h, 32), g2_n, g2_val, g2_t0, g2_t1, g2_f0, g2_f1, g2_set, g2_src)
+VC_ASSIGNS(__CPROVER_object_upto(S->h, 32), __CPROVER_object_whole(&g2s))
 __CPROVER_ensures(g2_n == __CPROVER_old(g2_n) + 1)
 __CPROVER_ensures(__CPROVER_old(g2_n) == g2_ob ?
 	(g2_set == 1 && g2_val == in[VC2_OI] && g2_t0 == S->t[0] && g2_t1 == S->t[1] && g2_f0 == S->f[0] && g2_f1 == S->f[1] && g2_src == VC2_XID(in)) :
@@ -56,7 +65,7 @@ int blake2s_update(blake2s_state *S, const void *pin, size_t inlen)
 __CPROVER_requires(inlen >= VC_B2_MININ && inlen <= VC_B2_MAXIN && __CPROVER_is_fresh(S, sizeof(blake2s_state)) && __CPROVER_is_fresh(pin, inlen) && S->buflen <= 64)
 __CPROVER_requires(g2_n == 0 && g2_set == 0 && g2_oi < 64 && g2_ob < 100000)
 __CPROVER_requires((VC2_GJ >= S->buflen && VC2_GJ - S->buflen < inlen) ==> ((const uint8_t *)pin)[(VC2_GJ >= S->buflen && VC2_GJ - S->buflen < inlen) ? VC2_GJ - S->buflen : 0] == g_byte0)
-VC_ASSIGNS(__CPROVER_object_whole(S), g2_n, g2_val, g2_t0, g2_t1, g2_f0, g2_f1, g2_set, g2_src)
+VC_ASSIGNS(__CPROVER_object_whole(S), __CPROVER_object_whole(&g2s))
 __CPROVER_ensures(__CPROVER_return_value == 0)
 /* every full block that is not the last one is compressed exactly once; the last block - even when exactly full - stays buffered */
 __CPROVER_ensures(g2_n == VC2_NB && S->buflen == VC2_TOTAL - 64 * VC2_NB)
@@ -79,7 +88,7 @@ __CPROVER_requires(outlen <= VC_B2_MAXOUT && __CPROVER_is_fresh(S, sizeof(blake2
 __CPROVER_requires(g2_n == 0 && g2_set == 0 && g2_oi < 64 && g2_ob == 0)
 __CPROVER_assigns(!VC2_REJ: __CPROVER_object_whole(S))
 __CPROVER_assigns(!VC2_REJ: __CPROVER_object_upto((uint8_t *)out, outlen))
-VC_ASSIGNS(g2_n, g2_val, g2_t0, g2_t1, g2_f0, g2_f1, g2_set, g2_src)
+VC_ASSIGNS(__CPROVER_object_whole(&g2s))
 /* no room for the digest, or already finalised: error, no compression, nothing written (frame) */
 __CPROVER_ensures(VC2_REJ_OLD ==> (__CPROVER_return_value == -1 && g2_n == 0))
 /* otherwise exactly one compression, of the state's own buffer: the buffered bytes followed by zeros, counter = old counter + buffered bytes, final-block flag
@@ -90,8 +99,9 @@ __CPROVER_ensures(!VC2_REJ_OLD ==> (__CPROVER_return_value == 0 && g2_n == 1 && 
 	g2_f0 == 0xFFFFFFFFu && g2_f1 == (__CPROVER_old(S->last_node) ? 0xFFFFFFFFu : __CPROVER_old(S->f[1]))))
 /* the state is marked finalised (a second call is rejected by the clause above), the digest length is kept */
 __CPROVER_ensures(!VC2_REJ_OLD ==> (S->f[0] == 0xFFFFFFFFu && S->outlen == __CPROVER_old(S->outlen)))
-/* digest: the first outlen bytes of h[0..7], each word little-endian */
-__CPROVER_ensures((!VC2_REJ_OLD && gk < outlen) ==> ((uint8_t *)out)[gk < outlen ? gk : 0] == VC2_HBYTE(S, gk))
+/* digest (RFC 7693 3.3): the first nn bytes of h[0..7], each word little-endian, nn = the digest length the state was initialised with (<= outlen here);
+   bytes of the caller's buffer beyond nn are not specified (the code fills all outlen bytes from h) */
+__CPROVER_ensures((!VC2_REJ_OLD && gk < __CPROVER_old(S->outlen)) ==> ((uint8_t *)out)[gk < outlen ? gk : 0] == VC2_HBYTE(S, gk))
 ;
 
 #define VC2_LE32(p, i)  ((uint32_t)(p)[4 * (i)] | ((uint32_t)(p)[4 * (i) + 1] << 8) | ((uint32_t)(p)[4 * (i) + 2] << 16) | ((uint32_t)(p)[4 * (i) + 3] << 24))
